@@ -512,13 +512,15 @@ func (w *world) enabled(weighted bool) (active, standby []op) {
 	// standby side
 	switch w.link {
 	case linkDetached:
-		add(&standby, op{kind: opFullSync}, 14)
+		add(&standby, op{kind: opFullSync}, 9)
 		if !w.realAct {
 			add(&standby, op{kind: opSyncFail, aux: fail500}, 1)
 			if weighted {
-				for m := failGarbage; m < nFailModes; m++ {
-					add(&standby, op{kind: opSyncFail, aux: m}, 1)
-				}
+				// two slots, as many as there ever were (the share of failed syncs and the decoding of committed
+				// fail files stay what they were); which failure a slot stands for rotates with the history
+				r := len(w.ops) % 3
+				add(&standby, op{kind: opSyncFail, aux: []int{failGarbage, failResetEarly, failGarbledByte}[r]}, 1)
+				add(&standby, op{kind: opSyncFail, aux: []int{failTruncated, failResetMid, failGarbledTail}[r]}, 1)
 			}
 		}
 	case linkSynced:
